@@ -9,5 +9,5 @@ Definition caps_id_format_args : list N := [0; 1; 2; 3]%N.
 (* identity less function: (field tested with !=, field compared with <) in order; 99 = not of that shape *)
 Definition caps_id_sort_keys : list (N * N) := [(0, 0); (1, 1); (2, 2)]%N.
 (* make(_, _, x.Len() - k): the k of every such capacity *)
-Definition caps_len_cap_deficits : list N := [1]%N.
+Definition caps_len_cap_deficits : list N := [0]%N.
 Definition caps_other_caps_nonneg : bool := true.
